@@ -321,3 +321,194 @@ Proof.
   - destruct (runt s); neutral_by HR.
   - apply CJ_close_finish; auto. eapply not_pend; eauto.
 Qed.
+
+Lemma CJ_pub_endall s : CJ s -> CJ (publish s PEndAll).
+Proof.
+  intros HC. eapply (CJ_frame s); [reflexivity | auto | | exact HC]. intros t' _ Hp. exact Hp.
+Qed.
+
+Ltac neutral_with tac :=
+  eapply CJ_holder_neutral;
+  [ eassumption | eassumption | eassumption | tac
+  | unfold cvw; cv_simpl; reflexivity
+  | cv_simpl; intros; try congruence; auto
+  | eapply not_pend; eauto ].
+
+Lemma CJ_enter_close s t p :
+  LkS s -> CJ s -> holder s = Some t -> find_task (tasks s) t = Some (CClose, p) ->
+  CJ (enter_close s t).
+Proof.
+  intros HL HC Hh Hf. unfold enter_close.
+  assert (HL1 : LkS (publish s PEndAll)) by exact HL.
+  pose proof (CJ_pub_endall _ HC) as HC1.
+  destruct (st_fsm (publish s PEndAll)) eqn:Efs;
+    try (eapply CJ_close_trigger; eauto; fail).
+  destruct (run_finished (publish s PEndAll)) as [[|]|].
+  - eapply CJ_close_trigger; eauto.
+  - neutral_with ltac:(hput CClose C_WaitRunFinished).
+  - neutral_with ltac:(apply HRes_release_finish; reflexivity).
+Qed.
+
+Lemma CJ_enter s t c part2 G :
+  LkS s -> FI s -> CJ s -> holder s = Some t -> find_task (tasks s) t = Some (c, G) ->
+  CJ (enter s t c part2).
+Proof.
+  intros HL HF HC Hh Hf. unfold enter.
+  destruct c; auto; try (eapply CJ_enter_run; eauto; fail).
+  - unfold enter_start. destruct (st_fsm s) eqn:Efs; try (eapply CJ_refuse; eauto; fail).
+    neutral_with ltac:(hput CStart S_G1).
+  - unfold enter_reset. destruct (st_fsm s) eqn:Efs; try (eapply CJ_refuse; eauto; fail).
+    + destruct (o_stmt o); [neutral_with ltac:(hput (CReset o) Z_G1) | neutral_with ltac:(hput (CReset o) Z_G1b)].
+    + destruct (o_stmt o); [neutral_with ltac:(hput (CReset o) Z_G1) | neutral_with ltac:(hput (CReset o) Z_G1b)].
+  - destruct part2; [eapply CJ_enter_close; eauto |].
+    unfold enter_start. destruct (st_fsm s) eqn:Efs; try (eapply CJ_refuse; eauto; fail).
+    neutral_with ltac:(hput CClose S_G1).
+Qed.
+
+(** ---- a new call asks for the lock ---- *)
+Lemma CJ_ext s s' :
+  tasks s' = tasks s -> cvw s' = cvw s -> st_fsm s' = st_fsm s -> CJ s -> CJ s'.
+Proof.
+  intros Et E Ef HC. destruct (cvw_fields _ _ E) as (E1 & E2 & E3 & E4 & E5 & E6 & E7 & E8).
+  eapply (CJ_frame s); eauto; [congruence|].
+  intros t' _ (c & p & Hf & Hc & Hp). exists c, p. rewrite Et. repeat split; auto.
+  unfold pend_pc. rewrite E4, E5, E6. exact Hp.
+Qed.
+
+Lemma CJ_acquire (s : state) (t : nat) (c : call) (part2 : bool) :
+  LkS s -> FI s -> find_task (tasks s) t = None ->
+  compat c (if part2 then Granted2 else Granted1) = true ->
+  CJ (set_pc s t c (if part2 then WaitLock2 else WaitLock1)) ->
+  CJ (set_pc s t c (if part2 then Granted2 else Granted1)) ->
+  CJ (acquire s t c part2).
+Proof.
+  intros HL HF Hnew Hc HW HG. unfold acquire.
+  destruct (holder s) as [h|] eqn:Eh.
+  - eapply CJ_ext; [| | | exact HW]; reflexivity.
+  - destruct (lockq s) as [|t1 q] eqn:Eq.
+    + set (G := if part2 then Granted2 else Granted1) in *.
+      set (s2 := set_pc (set_holder s (Some t)) t c G).
+      assert (HL2 : LkS s2).
+      { unfold LkS, s2. simpl. rewrite Eq. unfold LkS in HL. rewrite Eh, Eq in HL.
+        apply Lk_take; auto. unfold G. destruct part2; reflexivity. }
+      assert (HF2 : FI s2).
+      { destruct HF as [HP HS]. split; auto. unfold s2. simpl. apply PcOk_put; auto.
+        unfold G. destruct part2; reflexivity. }
+      assert (HC2 : CJ s2) by (eapply CJ_ext; [| | | exact HG]; reflexivity).
+      eapply CJ_enter; eauto. unfold s2. simpl. apply find_put_eq.
+    + eapply CJ_ext; [| | | exact HW]; reflexivity.
+Qed.
+
+Lemma CJ_new_task s s1 t c p :
+  CJ s -> find_task (tasks s) t = None -> tasks s1 = tasks s -> cvw s1 = cvw s -> st_fsm s1 = st_fsm s ->
+  CJ (set_pc s1 t c p).
+Proof.
+  intros HC Hnew Et E Ef. eapply (CJ_free_neutral s _ t); eauto.
+  - intros u Hn. simpl. rewrite Et. apply find_put_other; auto.
+  - simpl. intros; congruence.
+  - apply no_task_no_pend; auto.
+Qed.
+
+Lemma nonempty_snoc {A} (l : list A) x : nonempty (l ++ [x]) = true.
+Proof. destruct l; reflexivity. Qed.
+
+Lemma CJ_register s t c p :
+  CJ s -> find_task (tasks s) t = None -> is_cont c = true -> p = WaitLock1 \/ p = Granted1 ->
+  CJ (set_pc (set_cont_plugins (publish (set_trace s (EvCall t c :: trace s)) (PCont true))
+                               (cont_plugins s ++ [(t, false)])) t c p).
+Proof.
+  intros HC Hnew Hc Hp. pose proof (no_task_no_pend _ _ HC Hnew) as Hni.
+  pose proof HC as [h1 h2 h3 h4 h5 h6 h7].
+  constructor; simpl; auto.
+  - intros t' Hin. apply in_app_or in Hin. destruct Hin as [Hin | [Hin | []]].
+    + assert (t' <> t) by (intros ->; contradiction).
+      eapply (pend_free s _ t); eauto. intros u Hn. simpl. apply find_put_other; auto.
+    + inversion Hin; subst t'. exists c, p. simpl. rewrite find_put_eq. repeat split; auto.
+      destruct Hp as [-> | ->]; [left | right; left]; reflexivity.
+  - apply NoDup_snoc; auto.
+  - intros t' Hin. apply in_app_or in Hin. destruct Hin as [Hin | [Hin | []]]; auto. discriminate.
+  - intros _. rewrite nonempty_snoc. reflexivity.
+Qed.
+
+Lemma CJ_finish_free s s1 t c r :
+  CJ s -> tasks s1 = tasks s -> cvw s1 = cvw s -> st_fsm s1 = st_fsm s ->
+  ~ In (t, false) (cont_plugins s) -> CJ (finish_call s1 t c r).
+Proof.
+  intros HC Et E Ef Hni. eapply (CJ_free_neutral s _ t); eauto.
+  - intros u Hn. simpl. rewrite Et. apply find_remove_other; auto.
+  - simpl. intros; congruence.
+Qed.
+
+Lemma CJ_do_call s t c : LkS s -> FI s -> CJ s -> CJ (do_call s t c).
+Proof.
+  intros HL HF HC. unfold do_call. destruct (find_task (tasks s) t) as [x|] eqn:Ef; auto.
+  pose proof (no_task_no_pend _ _ HC Ef) as Hni.
+  pose proof (cj_started _ HC) as Hst.
+  set (s0 := set_trace s (EvCall t c :: trace s)).
+  assert (HL0 : LkS s0) by exact HL. assert (HF0 : FI s0) by exact HF.
+  assert (Hacq : forall part2 : bool, compat c (if part2 then Granted2 else Granted1) = true ->
+                 CJ (acquire s0 t c part2)).
+  { intros part2 Hc. apply CJ_acquire; auto; apply (CJ_new_task s); auto. }
+  destruct c; cbn [nl_started nl_closed cont_closed running_process send_command set_trace];
+    try (apply (Hacq false); reflexivity).
+  - unfold s0. simpl. rewrite Hst. apply (CJ_finish_free s); auto.
+  - destruct (nl_closed s0); [apply (CJ_finish_free s); auto|].
+    simpl. rewrite Hst.
+    apply CJ_acquire; [exact HL | exact HF | exact Ef | reflexivity | apply (CJ_new_task s); auto | apply (CJ_new_task s); auto].
+  - destruct (cont_closed s0) eqn:Ecl; [apply (CJ_finish_free s); auto|].
+    apply CJ_acquire; [exact HL | exact HF | exact Ef | reflexivity
+                     | exact (CJ_register s t CRunCont WaitLock1 HC Ef eq_refl (or_introl eq_refl))
+                     | exact (CJ_register s t CRunCont Granted1 HC Ef eq_refl (or_intror eq_refl))].
+  - destruct (cont_closed s0) eqn:Ecl; [apply (CJ_finish_free s); auto|].
+    apply CJ_acquire; [exact HL | exact HF | exact Ef | reflexivity
+                     | exact (CJ_register s t CRunContWait WaitLock1 HC Ef eq_refl (or_introl eq_refl))
+                     | exact (CJ_register s t CRunContWait Granted1 HC Ef eq_refl (or_intror eq_refl))].
+  - destruct (running_process s0); [apply (CJ_new_task s) | apply (CJ_finish_free s)]; auto.
+  - destruct (send_command s0); [apply (CJ_new_task s) | apply (CJ_finish_free s)]; auto.
+Qed.
+
+(** ---- close(): the start part is over, queue again for the close part ---- *)
+Lemma tstep_rel_put q ts t x : tstep ts (put_task (rel_tasks q ts) t x) t.
+Proof. intros u c p Hn Hf. rewrite find_put_neq by assumption. apply find_rel_tasks_fwd; auto. Qed.
+
+Lemma CJ_holder_neutral_ts s s' t :
+  LkS s -> CJ s -> holder s = Some t -> tstep (tasks s) (tasks s') t ->
+  cvw s' = cvw s -> (st_fsm s = Closed -> st_fsm s' = Closed) ->
+  ~ In (t, false) (cont_plugins s) -> CJ s'.
+Proof.
+  intros HL HC Hh HR E Hcl Hni. eapply CJ_frame; eauto.
+  intros t' Hin Hp. destruct (Nat.eq_dec t' t) as [->|Hn]; [contradiction|].
+  eapply pend_other; eauto.
+Qed.
+
+Lemma CJ_requeue s t :
+  LkS s -> FI s -> CJ s -> holder s = Some t -> find_task (tasks s) t = Some (CClose, S_G3) ->
+  CJ (acquire (release s) t CClose true).
+Proof.
+  intros HL HF HC Hh Hf. pose proof HF as [HP HS].
+  assert (Hni : ~ In (t, false) (cont_plugins s)) by (eapply not_pend; eauto).
+  pose proof HL as HL0. unfold LkS in HL0. rewrite Hh in HL0.
+  pose proof (Lk_release_forget _ _ _ HL0) as HFg.
+  assert (HSr : Scal (st_fsm (release s)) (runt (release s)) (run_finished (release s)) (alive (release s))
+                     (pending_exit (release s)) (run_arg (release s))).
+  { rewrite rl_fsm, rl_runt, rl_rf, rl_alive, rl_pe, rl_ra. exact HS. }
+  assert (Hgen : forall s', tasks s' = put_task (tasks (release s)) t (CClose, WaitLock2) \/
+                            tasks s' = put_task (tasks (release s)) t (CClose, Granted2) ->
+                            cvw s' = cvw (release s) -> st_fsm s' = st_fsm (release s) -> CJ s').
+  { intros s' Et E Ef. eapply (CJ_holder_neutral_ts s s' t); eauto.
+    - rewrite release_tasks in Et. destruct Et as [-> | ->]; apply tstep_rel_put.
+    - rewrite E. unfold cvw. cv_simpl. reflexivity.
+    - rewrite Ef, rl_fsm. auto. }
+  unfold acquire. rewrite release_holder, release_lockq.
+  destruct (rel_holder (lockq s)) as [h|] eqn:Eh.
+  - apply Hgen; auto.
+  - destruct (tl (lockq s)) as [|t1 q] eqn:Eq.
+    + set (s2 := set_pc (set_holder (release s) (Some t)) t CClose Granted2).
+      assert (HL2 : LkS s2).
+      { unfold LkS, s2. simpl. rewrite ?release_lockq, ?release_tasks, ?Eq. apply Lk_readd_take; auto. }
+      assert (HF2 : FI s2).
+      { split; auto. unfold s2. simpl. rewrite release_tasks. apply PcOk_release_put; auto. }
+      assert (HC2 : CJ s2) by (apply Hgen; auto).
+      eapply CJ_enter; eauto. unfold s2. simpl. apply find_put_eq.
+    + apply Hgen; auto.
+Qed.
